@@ -37,7 +37,14 @@ def np_asarray(x, dtype=None):
     return M._as_arr(x, dtype, copy=False)
 
 
+def _arr2_const(shape, value):
+    r, c = raw(shape[0]), raw(shape[1])
+    return Arr2(r, c, lambda i, j: (False, value))
+
+
 def np_zeros(shape, dtype=float):
+    if isinstance(shape, tuple) and len(shape) == 2:
+        return _arr2_const(shape, 0)
     n = _n_of_shape(shape)
     _nonneg(n)
     d = M.dtype_of(dtype)
@@ -45,6 +52,8 @@ def np_zeros(shape, dtype=float):
 
 
 def np_ones(shape, dtype=float):
+    if isinstance(shape, tuple) and len(shape) == 2:
+        return _arr2_const(shape, 1)
     n = _n_of_shape(shape)
     _nonneg(n)
     d = M.dtype_of(dtype)
@@ -727,8 +736,85 @@ def _active():
     return active()
 
 
+def _ufunc2(op):
+    """binary ufunc spelling of an operator: routed through the operand's own operator semantics
+    (ndarray or MaskedArray __array_wrap__ rules)"""
+
+    def f(a, b):
+        if isinstance(a, (list, tuple)):
+            a = M._as_arr(a)
+        if isinstance(b, (list, tuple)):
+            b = M._as_arr(b)
+        if isinstance(a, MArr) or isinstance(b, MArr):
+            if op in ("and", "or", "minimum", "maximum", "lt", "le", "gt", "ge", "eq", "ne", "add", "sub", "mul"):
+                # a plain ufunc with a masked operand: raw data operation, union mask
+                return M.ma_ufunc2(op, a, b)
+            raise Unsupported("np ufunc %s on masked operands" % op)
+        if isinstance(a, Arr) or isinstance(b, Arr):
+            return M.ew_binop(op, a, b)
+        raise Unsupported("np ufunc %s on scalars" % op)
+
+    return f
+
+
+def np_logical_not(a):
+    if isinstance(a, MArr):
+        d = a._data
+        if d.kind != "b":
+            d = M.cast_arr(d, "b")
+        return M.ma_ufunc1("invert", MArr(d, a._mask))
+    a = M._as_arr(a, copy=False)
+    if a.kind != "b":
+        a = M.cast_arr(a, "b")
+    return M.ew_unop("invert", a)
+
+
+def np_count_nonzero(a):
+    if isinstance(a, MArr):
+        raise Unsupported("count_nonzero of masked array")
+    a = M._as_arr(a, copy=False)
+    g, k = a.getter(), a.kind
+    c = M.count_true(a.n, lambda i: M._truth_pair(g(i), k), "nonzero")
+    return SNum(c, False, "pyi") if alg.is_sym(c) else c
+
+
+class _AbstractType:
+    """np.integer, np.number, ...: only as the second argument of np.issubdtype"""
+
+    def __init__(self, name, kinds):
+        self.name, self.kinds = name, kinds
+
+    def __repr__(self):
+        return "np." + self.name
+
+
+_ABSTRACT = {
+    "integer": "iu",
+    "signedinteger": "i",
+    "unsignedinteger": "u",
+    "inexact": "f",
+    "number": "iuf",
+    "generic": "iufbmM",
+}
+
+
+def np_issubdtype(a, b):
+    ka = M.dtype_of(a)
+    if isinstance(b, _AbstractType):
+        return ka.kind in b.kinds
+    if b is M.floating:
+        return ka.kind == "f"
+    if b is M.datetime64 or b is getattr(M, "timedelta64", None):
+        return ka.kind == b.kind
+    kb = M.dtype_of(b)
+    return ka.kind == kb.kind and ka.unit == kb.unit
+
+
 def build_np():
     np = _ModelNS("numpy")
+    for _n, _k in _ABSTRACT.items():
+        setattr(np, _n, _AbstractType(_n, _k))
+    np.issubdtype = np_issubdtype
     np.__pyvc_model__ = True
     np.float64 = M.float64
     np.floating = M.floating
@@ -753,6 +839,28 @@ def build_np():
     np.isnan = np_isnan
     np.isfinite = np_isfinite
     np.minimum = np_minimum
+    np.maximum = _ufunc2("maximum")
+    np.logical_not = np_logical_not
+    np.invert = np_logical_not
+    np.logical_and = _ufunc2("and")
+    np.logical_or = _ufunc2("or")
+    np.bitwise_and = _ufunc2("and")
+    np.bitwise_or = _ufunc2("or")
+    np.greater = _ufunc2("gt")
+    np.greater_equal = _ufunc2("ge")
+    np.less = _ufunc2("lt")
+    np.less_equal = _ufunc2("le")
+    np.equal = _ufunc2("eq")
+    np.not_equal = _ufunc2("ne")
+    np.add = _ufunc2("add")
+    np.subtract = _ufunc2("sub")
+    np.multiply = _ufunc2("mul")
+    np.negative = _ufunc1("neg")
+    np.count_nonzero = np_count_nonzero
+    np.size = lambda a: a.size
+    np.shape = lambda a: a.shape
+    np.ndim = lambda a: a.ndim
+    np.asanyarray = lambda a, dtype=None: (a if isinstance(a, MArr) and dtype is None else np_asarray(a, dtype))
     np.diff = np_diff
     np.where = np_where
     np.mean = np_mean
